@@ -36,6 +36,17 @@ def init_worker(ctx):
     from cdd.shared.docstring_utils import derive_docstring_format
 
 
+@st.composite
+def undocumented_some(draw):
+    """some parameters carry no description at all (type / default only) - an ordinary shape of real docstrings"""
+    case = draw(gen_ir.interface("docstring", suffix=True, min_params=1, max_params=6))
+    idx = draw(st.lists(st.integers(0, len(case["params"]) - 1), min_size=1, max_size=3, unique=True))
+    for i in idx:
+        case["params"][i][1]["doc"] = ""
+    case["kinds"] = list(case["kinds"]) + ["undocumented-param"]
+    return case
+
+
 def strategy(ctx):
     return st.builds(
         lambda i, suffix_only: dict(i, cells=None),
@@ -45,6 +56,7 @@ def strategy(ctx):
             gen_ir.interface("docstring", suffix=True, doc=gen_ir.long_descr, max_params=4),
             gen_ir.interface("docstring", suffix=True, doc=gen_ir.mixed_descr, name_strategy=gen_ir.rich_names),
             gen_ir.wrap_boundary_interface(),
+            undocumented_some(),
         ),
         st.just(0),
     )
@@ -105,6 +117,14 @@ def check_cell(r, case, ir, cell):
             return
         r.fail("parse-raises", "%s %s on %r" % (tag, core.exc_bucket(e), ds[:300]))
         return
+    # P77: a parameter WITHOUT description: the `Defaults to` sentence only ever rides on a description, so the default
+    # of such a parameter is not in the text in any style, and ReST without types writes no line for it at all
+    undoc = [n for n, p in params if not p.get("doc")] if is_open("P77") else []
+    if undoc and style == "rest" and not et:
+        r.covered("P77")
+        if list(back["params"]) != [n for n, _p in params if n not in undoc]:
+            r.fail("names", "%s want %s (undocumented ones have no line in ReST without types) got %s text=%r" % (tag, [n for n, _p in params if n not in undoc], list(back["params"]), ds[:400]))
+        return
     if params or has_ret:
         det = derive_docstring_format(ds).name
         if det != style:
@@ -147,6 +167,9 @@ def check_cell(r, case, ir, cell):
             gd = default_view(b, typ=p["typ"])
             if wd != gd and p40:
                 r.covered("P40")
+            elif wd != gd and n in undoc and (gd[1] in (ABSENT, NoneStr) or (style != "rest" and gd[1] in (0, 0.0, "", False))):
+                # (google / numpydoc force the zero value onto every entry after the first one that carries a default)
+                r.covered("P77")
             elif wd != gd and p63:
                 r.covered("P63")
             elif wd != gd:
@@ -160,7 +183,7 @@ def check_cell(r, case, ir, cell):
         want_doc, got_doc = normdoc(p.get("doc")), normdoc(b.get("doc"))
         if want_doc != got_doc:
             r.fail("doc", "%s %s: %r -> %r" % (tag, n, p.get("doc"), b.get("doc")))
-        if p40:
+        if p40 or n in undoc:
             pass
         elif eedd and pedd and "default" in p and p["default"] != NoneStr and "Defaults to" not in (b.get("doc") or ""):
             r.fail("default-prose", "%s %s: parse side asked to keep the prose but it is gone: %r" % (tag, n, b.get("doc")))
